@@ -42,7 +42,8 @@
 (*        any length); OneBranch (totality + determinism) and the control  *)
 (*        invariants; emits the LTS as EDGE lines.                         *)
 (*   MC_ReproTokenizer_bnd*  every document of <= MaxLines lines over      *)
-(*        Classes x termination x mode: Lossless, TokenShape, TokenLocal,  *)
+(*        Classes (and of <= NarrowMaxLines lines over NarrowClasses)      *)
+(*        x termination x mode: Lossless, TokenShape, TokenLocal,          *)
 (*        PartsLossless, ParaShape; emits one CASE line per document with  *)
 (*        the expected output (segment order) and the predicted token      *)
 (*        kinds / part list for the replay into the real parser.           *)
@@ -60,6 +61,8 @@ EXTENDS Naturals, Sequences, FiniteSets, TLC, Json
 
 CONSTANTS Classes,               \* input alphabet (subset of AllClasses)
           MaxLines,              \* bound on the number of lines (0: unbounded, use with VIEW)
+          NarrowClasses,         \* documents whose lines are all in NarrowClasses may be longer:
+          NarrowMaxLines,        \* up to NarrowMaxLines lines (0: no such documents)
           Emit,                  \* "none" | "edge" | "case"
           MergeUnterminatedWs,   \* negative control
           DropFloatingComment    \* negative control
@@ -85,7 +88,7 @@ HasPre(c)  == c \in {"F1b", "F1ba"}
 HasPost(c) == c \in {"F1a", "F1ba"}
 Branches   == {"TokBlank", "TokComment", "TokContinuation", "TokStrayIndent", "TokField", "TokGarbage"}
 
-ASSUME Classes \subseteq AllClasses
+ASSUME Classes \subseteq AllClasses /\ NarrowClasses \subseteq Classes
 
 ----------------------------------------------------------------------------
 \* pure operators (re-used by TraceReproTokenizer)
@@ -211,7 +214,10 @@ Init == /\ mode \in {"T", "N"}
 \* the input protocol = the domain of the property
 Accepts(c, nl) == /\ ~ended
                   /\ IF mode = "N" THEN ~nl ELSE (nl \/ c # "E")
-                  /\ (MaxLines > 0 => Len(lines) < MaxLines)
+                  /\ \/ MaxLines = 0
+                     \/ Len(lines) < MaxLines
+                     \/ /\ Len(lines) < NarrowMaxLines /\ c \in NarrowClasses
+                        /\ \A i \in 1..Len(lines) : lines[i].c \in NarrowClasses
 Enl(nl) == nl \/ mode = "N"
 
 Consume(c, nl) == /\ lines' = Append(lines, [c |-> c, nl |-> nl])
